@@ -9,6 +9,7 @@ Bounded-exhaustive check of `add_measures`, `tie_notes`, `find_tuplets`, `fill_r
   measures-tile            after add_measures the measures are exactly the pre-existing ones plus, in
                            every stretch not inside a measure, bars of the length of the signature in
                            force, cut only by a signature change, an existing measure or the part end
+                           (reported as measures-overlap when the measures found overlap each other)
   existing-measures-untouched   the pre-existing Measure objects keep their start and end
   measures-numbered        all measures are numbered 1..n in time order
   note-array-unchanged     the note array (every column, plus staff) before and after tie_notes /
@@ -126,7 +127,8 @@ def check_measures(res, case, part, ms, where):
     got_ext = sorted((int(s), int(e)) for s, e, _ in got)
     exp_ext = sorted((s, e) for s, e, _ in exp)
     if got_ext != exp_ext:
-        res.fail("measures-tile", expected=exp_ext, observed=got_ext, where=where,
+        overlap = any(a[1] > b[0] for a, b in zip(got_ext, got_ext[1:]))
+        res.fail("measures-overlap" if overlap else "measures-tile", expected=exp_ext, observed=got_ext, where=where,
                  detail="existing=%r ts=%r dv=%r" % (case["ms"], case["ts"], case["dv"]))
     for i, m in enumerate(ms):
         se = (None if m.start is None else m.start.t, None if m.end is None else m.end.t)
@@ -197,7 +199,8 @@ def check_notes(res, case, part, where, tied):
                 return pieces
             if not ok:
                 res.fail("symbolic-duration", expected="%d divisions at %d per quarter" % (e - s, q),
-                         observed="%s %r = %s quarters" % (label, sd, M.sym_quarters(sd)), where=where,
+                         observed="%s %r = %s quarters" % (label, sd, M.sym_quarters(sd)),
+                         where=where if label == "stored" else "GenericNote.symbolic_duration",
                          detail="%s %s [%s, %s]" % (type(g).__name__, g.id, s, e))
                 return pieces
         sd = g.symbolic_duration
@@ -474,7 +477,7 @@ def gen_measures(qs, pairs, sh):
             else:
                 exs = [[]] + [[x] for x in ivs]
             for ts1 in SIGS:
-                seconds = [None] + [(t2, n2) for t2 in range(1, E) for n2 in SIGS if n2 != ts1]
+                seconds = [None] + [(t2, n2) for t2 in range(1, E + 1) for n2 in SIGS if n2 != ts1]
                 for sec in seconds:
                     ts = [[0] + list(TS[ts1])]
                     if sec is not None:
@@ -483,7 +486,7 @@ def gen_measures(qs, pairs, sh):
                         if not sh.take():
                             continue
                         ms = [[a * q, b * q] for a, b in ex]
-                        c = mk([[0, q]], ts, ms, [[0, E * q, 0, 1, 1]], "AT")
+                        c = mk([[0, q]], ts, ms, [[0, E * q, 1, 1, 1]], "AT")
                         if valid(c):
                             yield c
 
@@ -507,7 +510,7 @@ def gen_three_sigs(qs, sh):
                                 if not sh.take():
                                     continue
                                 ms = [[a * q, b * q] for a, b in ex]
-                                c = mk([[0, q]], ts, ms, [[0, E * q, 0, 1, 1]], "AT")
+                                c = mk([[0, q]], ts, ms, [[0, E * q, 1, 1, 1]], "AT")
                                 if valid(c):
                                     yield c
 
@@ -540,7 +543,7 @@ def gen_one_note(qs, span, orders, sh):
                 for ops in orders:
                     if not sh.take():
                         continue
-                    c = mk([[0, q]], ts, ms, [[s, e, 0, 1, 1]], ops)
+                    c = mk([[0, q]], ts, ms, [[s, e, 1, 1, 1]], ops)
                     if valid(c):
                         yield c
 
@@ -623,7 +626,7 @@ def gen_linked(qs, span, orders, sh):
         for lay in (LAYOUTS[0], LAYOUTS[1], LAYOUTS[5]):
             ts, ms = layout(q, lay)
             for cut in cuts:
-                notes = [[a, b, 0, 1, 1] for a, b in zip(cut, cut[1:])]
+                notes = [[a, b, 1, 1, 1] for a, b in zip(cut, cut[1:])]
                 n = len(notes)
                 tie_sets = [[[i, i + 1] for i in range(n - 1)], [[0, 1]], [[n - 2, n - 1]]]
                 tie_sets = [t for i, t in enumerate(tie_sets) if t not in tie_sets[:i]]
@@ -659,7 +662,7 @@ def gen_divchange(orders, sh):
                     for ops in orders:
                         if not sh.take():
                             continue
-                        c = mk(dv, ts, [], [[s, e, 0, 1, 1]], ops)
+                        c = mk(dv, ts, [], [[s, e, 1, 1, 1]], ops)
                         if valid(c):
                             yield c
 
@@ -715,7 +718,7 @@ def spaces(tier, seed):
     mq = [1, 3] if quick else [1, 2, 3, 4, 6]
     add("measures-single", lambda sh: gen_measures(mq, False, sh), 1,
         "divs %s; part of 8 or 9 quarters (one note over everything); first signature 2/4,3/4,4/4,6/8; no or one other signature at "
-        "every quarter; no or one pre-existing measure at every quarter interval; ops add_measures, tie_notes" % (mq,))
+        "every quarter (also at the very end); no or one pre-existing measure at every quarter interval; ops add_measures, tie_notes" % (mq,))
     add("measures-pairs", lambda sh: gen_measures([1, 3, 6], True, sh), 48,
         "as measures-single with every two non-overlapping pre-existing measures, divs {1,3,6}")
     add("three-signatures", lambda sh: gen_three_sigs([1, 3], sh), 12,
